@@ -62,6 +62,13 @@ def run(ctx):
         docs = list(gen.uniq(gen.sample(small, 150, ctx.seed) + gen.sample(big, 150, ctx.seed + 1) + gen.sample(corpus, 150, ctx.seed + 2)))
     else:
         docs = list(gen.uniq(small + corpus))
+    # pragmas that name several rules: whether a later-named rule is suppressed must not depend on the earlier-named ones
+    multi = []
+    for first in ("md002", "md041", "no-inline-html", "md013", "md999x"):
+        for second, line in (("md013", "x" * 90), ("md009", "tail   "), ("md019", "#  h"), ("md033", "a <b>c</b>"), ("md034", "see http://a.b/c now"), ("md018", "#h")):
+            multi.append(f"# t\n\n<!-- pyml disable-next-line {first},{second}-->\n{line}\n")
+            multi.append(f"# t\n\n<!-- pyml disable-num-lines 2 {first}, {second}-->\n{line}\n{line}\n")
+    docs = multi + docs
     docs = [d for d in docs if d.strip()]
     jobs = []
     for d in docs:
@@ -103,12 +110,12 @@ def run(ctx):
                 ctx.violation("disable", {"doc": d, "disabled": r}, f"disabling {r} changes other rules' reports: {minus[r][1]} vs {want}", group="disable-" + r)
     ctx.sample({"doc": docs[0], "all": res[0][1][:5]})
     # no rule mutates a token in scan mode
-    probe_docs = docs[: (150 if ctx.tier == "quick" else 1500)]
+    probe_docs = docs[: (210 if ctx.tier == "quick" else 1560)]
     pres = impl.pmap(_mutation_probe, probe_docs, chunksize=8)
     for d, (code, same, n, err) in zip(probe_docs, pres):
         ctx.count(1, "token-immutability")
-        if code not in (0, 1):
-            continue
+        if code not in (0, 1) or "Error" in err:
+            continue            # the scan ended in an application error (a rule raised: C07's business); the last recorder was never reached
         if not same:
             ctx.violation("mutation", {"doc": d}, "the recorder dispatched last saw different tokens than the recorder dispatched first: a rule modified a token in scan mode", group="mutation")
     ctx.corr_cases += len(probe_docs)
@@ -120,6 +127,6 @@ def run(ctx):
     ]
     return ctx.finish(
         level="proof",
-        rule=f"per document {per} scans: all rules, default set, each of {len(allr)} rules alone, default minus each of {len(default)}; documents from the repository's own test corpus ({len(corpus)} documents; quick: 450 seed-selected incl. 150 with >= 9 lines) + trigger-line documents; non-trivial = at least one failure reported; distinct by document",
+        rule=f"per document {per} scans: all rules, default set, each of {len(allr)} rules alone, default minus each of {len(default)}; documents from the repository's own test corpus ({len(corpus)} documents; quick: 450 seed-selected incl. 150 with >= 9 lines) + trigger-line documents + 60 documents with pragmas naming two rules; non-trivial = at least one failure reported; distinct by document",
         assumptions=["documents on which the parser or a rule crashes are skipped here (C01, C07)"],
     )
